@@ -18,7 +18,7 @@ from sim.fingerprint import obs_equal
 from sim.world import Session, classify, exc_detail, exc_signature, reference_world
 
 PROPERTY = "C17"
-SESSIONS = {"quick": 140, "thorough": 4000}
+SESSIONS = {"quick": 140, "thorough": 500}
 BUDGET_S = {"quick": 80, "thorough": 1500}
 CAP_S = {"quick": 240, "thorough": 480}
 RULE = ("one session = one generated recipe x every intermediate cut point (all for <= 6 ops, sampled above) x a drawn cut kind "
